@@ -279,6 +279,18 @@ func (e *executor) withStdIn(stdIn *bytes.Buffer) *executor {
 // should be used almost every time; the only exception is when the output is
 // desired without any processing such as the removal of space characters.
 func (e *executor) executeString() (string, error) {
+	stdOut, err := e.executeRaw()
+	if err != nil {
+		return "", err
+	}
+
+	return strings.TrimSpace(stdOut), nil
+}
+
+// executeRaw runs the constructed Git command and returns the contents of
+// stdout exactly as Git wrote them. This must be used when the output carries
+// data that must not be altered, such as NUL-terminated path names.
+func (e *executor) executeRaw() (string, error) {
 	stdOut, stdErr, err := e.execute()
 	if err != nil {
 		stdErrContents, newErr := io.ReadAll(stdErr)
@@ -293,7 +305,17 @@ func (e *executor) executeString() (string, error) {
 		return "", fmt.Errorf("unable to read stdout contents: %w", err)
 	}
 
-	return strings.TrimSpace(string(stdOutContents)), nil
+	return string(stdOutContents), nil
+}
+
+// splitNULTerminated splits the output of a Git command run with -z into its
+// NUL-terminated items.
+func splitNULTerminated(stdOut string) []string {
+	items := strings.Split(stdOut, "\x00")
+	if len(items) > 0 && items[len(items)-1] == "" {
+		items = items[:len(items)-1]
+	}
+	return items
 }
 
 // execute runs the constructed Git command and returns the raw stdout and
